@@ -693,7 +693,8 @@ impl<'b, 'a: 'b> FmtVisitor<'a> {
             (ast::AssocItemKind::MacCall(ref mac), _) => {
                 self.visit_mac(mac, MacroPosition::Item);
             }
-            _ => unreachable!(),
+            // Delegation items (`reuse path;`) are left as they are.
+            _ => self.push_rewrite(ai.span, None),
         }
     }
 
